@@ -51,11 +51,11 @@ def tbTerm : Term → List Exc
   | .raise1 _ => []
   | .raiseMulti _ _ => []
   | .assertFail _ _ => []
-  | .fixtureFail _ _ _ => []
+  | .fixtureFail _ _ _ _ => []
 
 def uqTerm (k : Nat) : Term → List (DName × Content)
   | .assertFail _ ds => ds.map fun x => (x.1, Content.user x.2)
-  | .fixtureFail ds _ _ => ds.map fun x => (x.1, freeze k (.user x.2))
+  | .fixtureFail ds _ _ _ => ds.map fun x => (x.1, freeze k (.user x.2))
   | .ret => []
   | .raise1 _ => []
   | .raiseMulti _ _ => []
@@ -145,7 +145,7 @@ theorem JS.onActs : ∀ (as : List Act) {s : RS} {A : List (DName × UC)} {U : L
 /-- names in the details dict a terminal hands over -/
 def termDict : Term → List (DName × UC)
   | .assertFail _ ds => ds
-  | .fixtureFail ds _ _ => ds
+  | .fixtureFail ds _ _ _ => ds
   | .ret => []
   | .raise1 _ => []
   | .raiseMulti _ _ => []
@@ -160,7 +160,7 @@ theorem JS.onTerm (t : Term) {s : RS} (h : JS s T A U) (hn : ∀ x ∈ termDict 
   | assertFail e ds =>
     have := J.uniqueAll s.clock false ds h hn
     simpa [runTerm, tbTerm, uqTerm, storedAs, JS] using this
-  | fixtureFail ds e se =>
+  | fixtureFail ds e ces se =>
     have := J.uniqueAll s.clock true ds h hn
     simpa [runTerm, tbTerm, uqTerm, storedAs, JS] using this
   | expectFailure r eo x =>
